@@ -1,1 +1,4 @@
-import AgdbDb.Model.Query
+import AgdbDb.Props.C08
+import AgdbDb.Props.C09
+import AgdbDb.Props.C11
+import AgdbDb.Props.C13
